@@ -1168,6 +1168,13 @@ def _stable_rhs(fn, blk, i, rhs, uses, params) -> bool:
             return True
         if isinstance(e, ast.Subscript) and _const_like(e.value) and _pure_chain(e.value):
             return ok(e.slice)          # a look-up in a constant table (capitalised name): the table is not changed
+        if isinstance(e, ast.Subscript) and isinstance(e.value, ast.Name) and isinstance(e.slice, ast.Name):
+            # an item of a local container selected by a local key: stable while neither name is rebound and nothing stores
+            # into the container (method calls on it are checked like on any root)
+            roots.add(e.value.id)
+            names.add(e.slice.id)
+            subs.add(e.value.id)
+            return True
         if isinstance(e, (ast.Attribute, ast.Subscript)) and _alias_chain(e) and not (isinstance(e, ast.Attribute) and _const_like(e) and _pure_chain(e)):
             # a chain of fields and constant items below a name: stable while none of those fields/items is stored
             c_ = e
@@ -1866,6 +1873,80 @@ def _fold_flag_building(fn: ast.FunctionDef, known: set) -> None:
     ast.fix_missing_locations(fn)
 
 
+def _attr_built_in_local(fn: ast.FunctionDef, ref_fn: dict, known: set) -> None:
+    """A field of an object under construction is computed in a fresh local and stored once at the end (`t = ...`; ...; `obj.a = t`)
+    where the reference works on the field itself: t is obj.a.  obj is a local that has not escaped (no call takes it as argument
+    or receiver, it is not re-bound) and obj.a is not touched between the first binding of t and the copy; the copy stands in the
+    same block as that binding; t is not re-bound after the copy.  At least one store must then read as a line of the reference."""
+    import copy as _copy
+    ref_lines = {l.strip() for l in ref_fn.get("src", "").splitlines()}
+    for blk in _fn_blocks(fn):
+        for j, cp in enumerate(blk):
+            if not (isinstance(cp, ast.Assign) and len(cp.targets) == 1 and isinstance(cp.targets[0], ast.Attribute) and isinstance(cp.targets[0].value, ast.Name)
+                    and isinstance(cp.value, ast.Name) and cp.value.id not in known):
+                continue
+            obj, attr, t = cp.targets[0].value.id, cp.targets[0].attr, cp.value.id
+            if obj == "self":
+                continue
+            first = next((k for k in range(j) if any(isinstance(x, ast.Name) and x.id == t and isinstance(x.ctx, ast.Store) for x in ast.walk(blk[k]))), None)
+            if first is None:
+                continue
+            # every occurrence of t lies in blk[first:]
+            inside = {id(x) for st in blk[first:] for x in ast.walk(st)}
+            occ = [x for x in ast.walk(fn) if isinstance(x, ast.Name) and x.id == t]
+            if not all(id(x) in inside for x in occ):
+                continue
+            if any(isinstance(x, ast.Name) and x.id == t and isinstance(x.ctx, (ast.Store, ast.Del)) for st in blk[j + 1:] for x in ast.walk(st)):
+                continue
+            bad = False
+            for st in blk[first:j]:
+                for x in ast.walk(st):
+                    if isinstance(x, ast.Attribute) and x.attr == attr and isinstance(x.value, ast.Name) and x.value.id == obj:
+                        bad = True
+                    if isinstance(x, ast.Name) and x.id == obj and isinstance(x.ctx, (ast.Store, ast.Del)):
+                        bad = True
+                    if isinstance(x, ast.Call) and (any(isinstance(a, ast.Name) and a.id == obj for a in list(x.args) + [k.value for k in x.keywords])
+                                                    or (isinstance(x.func, ast.Attribute) and isinstance(x.func.value, ast.Name) and x.func.value.id == obj)):
+                        bad = True
+                    if isinstance(x, (ast.FunctionDef, ast.Lambda)):
+                        bad = True
+            # obj must be a local bound in this function before (not a parameter: the caller could watch it)
+            params = {p.arg for p in fn.args.posonlyargs + fn.args.args + fn.args.kwonlyargs}
+            if bad or obj in params or not any(isinstance(x, ast.Name) and x.id == obj and isinstance(x.ctx, ast.Store) for st in fn.body for x in ast.walk(st)):
+                continue
+            # stores to obj.a after the copy would make later reads of t differ
+            if any(isinstance(x, ast.Attribute) and x.attr == attr and isinstance(x.ctx, (ast.Store, ast.Del)) and isinstance(x.value, ast.Name) and x.value.id == obj
+                   for st in blk[j + 1:] for x in ast.walk(st)):
+                continue
+            # would a store read as the reference's?
+            trial_ok = False
+            for st in blk[first:j]:
+                for x in ast.walk(st):
+                    if isinstance(x, ast.Assign) and len(x.targets) == 1 and isinstance(x.targets[0], ast.Name) and x.targets[0].id == t:
+                        tr2 = _copy.deepcopy(x)
+                        _subst_name_with_attr(tr2, t, obj, attr)
+                        if _head_line(_Canonical().visit(tr2)) in ref_lines:
+                            trial_ok = True
+            if not trial_ok:
+                continue
+            for st in blk[first:]:
+                _subst_name_with_attr(st, t, obj, attr)
+            del blk[j]
+            ast.fix_missing_locations(fn)
+            return _attr_built_in_local(fn, ref_fn, known)
+
+
+def _subst_name_with_attr(root: ast.AST, t: str, obj: str, attr: str) -> None:
+    for parent in ast.walk(root):
+        for fld, val in ast.iter_fields(parent):
+            if isinstance(val, ast.Name) and val.id == t:
+                setattr(parent, fld, ast.copy_location(ast.Attribute(value=ast.Name(id=obj, ctx=ast.Load()), attr=attr, ctx=val.ctx), val))
+            elif isinstance(val, list):
+                for k, v in enumerate(val):
+                    if isinstance(v, ast.Name) and v.id == t:
+                        val[k] = ast.copy_location(ast.Attribute(value=ast.Name(id=obj, ctx=ast.Load()), attr=attr, ctx=v.ctx), v)
+
+
 def _delay_snapshot_mutation(fn: ast.FunctionDef, known: set) -> None:
     """`t = self.a` / `self.a ^= K` / ... uses of t ...   ->   `t = self.a` / ... uses of t ... / `self.a ^= K`: an update of
     an attribute whose old value was saved in a fresh local moves behind the last use of that local, when nothing in between
@@ -2169,6 +2250,7 @@ def canonicalise(tree: ast.Module, rel: str = "") -> ast.Module:
     if ref is not None:
         from . import canon
         canon.inline_fresh_structs(tree, ref)
+        canon.inline_fresh_regexes(tree, ref)
         for _k in range(3):
             before_c = ast.dump(tree)
             canon.inline_fresh_constants(tree, ref)
@@ -2251,6 +2333,7 @@ def canonicalise(tree: ast.Module, rel: str = "") -> ast.Module:
                             _restore_aug_mask(n, rf, known)
                             _coalesce_toward_reference(n, rf, known)
                             _rename_by_role(n, rf, known)
+                            _attr_built_in_local(n, rf, known)
                         shape()
                         _Canonical().visit(n)
                         now = ast.dump(n)
